@@ -60,7 +60,9 @@ def cases(draw, tier="quick"):
         nodes.append(node)
     root_style = draw(st.sampled_from(["abs", "abs_hostile", "rel", "rel_hostile", "none"]))
     rootname = draw(hostile_names()) if "hostile" in root_style else b"unpacked"
-    return dict(nodes=nodes, root_style=root_style, rootname=rootname, B=4096, comp=draw(st.sampled_from(["gzip", "zstd"])))
+    # the root directory is an entry like any other: its permission bits and owner belong to the tree
+    root_attr = draw(st.sampled_from([None, None, (0o750, 1000, 2000), (0o1777, 0, 0), (0o755, 0, 5), (0o700, 70000, 70000), (0o2775, 3, 4)]))
+    return dict(nodes=nodes, root_style=root_style, rootname=rootname, B=4096, comp=draw(st.sampled_from(["gzip", "zstd"])), root_attr=root_attr)
 
 
 def has_quote_bytes(b):
@@ -79,7 +81,9 @@ def check_case(case, opts):
         except OSError as e:
             raise Inconclusive("materialise: %s" % e)
         img1 = os.path.join(sc, "one.sqfs")
-        r = vcommon.run([gen, "--pack-dir", src, "-c", case["comp"], "-b", str(case["B"]), "-q", img1], timeout=60)
+        ra = case.get("root_attr")
+        # (with --pack-dir the root directory takes its attributes from --defaults)
+        r = vcommon.run([gen] + (["-d", "mode=0%o,uid=%d,gid=%d" % ra] if ra else []) + ["--pack-dir", src, "-c", case["comp"], "-b", str(case["B"]), "-q", img1], timeout=60)
         if r.rc != 0 or r.timeout or r.sanitizer():
             raise Inconclusive("source image could not be built (C01's business): %s" % r.err[-200:])
         t1 = sqfsimg.Image(open(img1, "rb").read()).tree()
